@@ -1459,12 +1459,27 @@ def main(ck):
                "round trips, Jacobian vs central differences; (B) real TransformedModel over an exact stub base model (n_dim 2/3, "
                "stub and shipped triple) bit-exact vs the composition model; (D) conditional_sample replays (stub pdf computed by the "
                "model, shipped families via TABLE pdf; n 10..1e4, max_iter 1..100, all dims, conditioning quantiles up to 1-1e-6) "
-               "bit-exact vs the sampler model; (E) statistics with distribution-free bounds at 1e-12; non-trivial = at least 2 "
+               "bit-exact vs the sampler model; (F) sample sizes / random_state / conditioning values requested by marginal_icdf, "
+               "conditional_icdf, conditional_cdf and by IFORMContour from recorder-stubbed samplers: probabilities as scalar / list / "
+               "ndarray with p_small down to 1e-7, precision_factor in [0.1, 1] passed by keyword / position / default, every dim of "
+               "2- and 3-D models, random_state None / 0 / int / Generator, vs Model/McSize.lean; (E) statistics with distribution-free "
+               "bounds at 1e-12: conditioning quantiles 0.01 .. 1-1e-6, Tz given Hs and Hs given Tz, wrappers with ndarray / list / "
+               "integer x; non-trivial = at least 2 "
                "points / n >= 10; distinct by SHA1 of the case")
     ck.assumptions = ["numpy Generator streams are reproducible and uniform(low, high, size) is consumed in call order",
                       "DKW / Hoeffding / order-statistic (Beta) bounds at error probability 1e-12 per comparison",
                       "reference conditional cdf of Tz given Hs: 1 - G_S|hs(F hs/t^2) with the closed-form exponentiated Weibull cdf"]
     ck.partial = {
+        "Monte-Carlo sample sizes": "the sizes requested by marginal_icdf / conditional_icdf / conditional_cdf are compared "
+        "with Model/McSize.lean on recorder-stubbed samplers (part F; theorems marginalN_exceedances, condN_bounds, ...); a sample "
+        "of 1e7 points is never drawn, the Monte-Carlo agreement itself is observed at precision_factor 0.1 only",
+        "far tail": "conditioning quantiles >= 0.999 fail on the unchanged code (known findings) in exactly two ways: sample = "
+        "conditional truncated at the search's x_max; nothing accepted with the search's x_max below the conditional's mass. "
+        "Any other failure there is reported",
+        "IFORM random_state": "iform_seeded_reproducible is rfl on an abstract 2-step model; that the code hands the model's "
+        "random_state (0, int, Generator) to every Monte-Carlo step is observed (recorders) per run",
+        "TransformedModel.fit / 3-D IFORM": "fit: correspondence only (transform(data) reaches the base model); a 3-D IFORM of a "
+        "TransformedModel is outside the quantifier and not checked (its step for dimension 1 reads an uninitialised column)",
         "push-forward density integrates to one": "Gauss-Legendre quadrature of the real pdf per run (Mathlib has no ready change of variables at acceptable cost)",
         "cdf equals the empirical cdf of its own samples": "nquad cdf vs 1-D exact reference; ecdf within Hoeffding/DKW bounds",
         "samples follow the push-forward": "KS of Hs marginal and of the PIT of Tz|Hs through the exact conditional",
@@ -1480,11 +1495,12 @@ def main(ck):
     for _ in range(400 if thorough else 60):
         process_stub(ck, make_stub_case(rng))
     process_stub_cached_sample(ck, rng)
+    stop_after_ab = bool(ck.failures or ck.divergences)
     for case in gen_size_cases(rng, 600 if thorough else 120):
         process_sizes(ck, case)
     for _ in range(30 if thorough else 6):
         process_sizes_iform(ck, rng)
-    if ck.failures or ck.divergences:
+    if stop_after_ab:
         # a transform / Jacobian / composition that is already wrong makes the Monte-Carlo parts meaningless
         # (and, with a density that accepts nothing, very slow): report what was found
         ck.extra["stopped_after"] = "A/B (failure found; Monte-Carlo parts skipped)"
